@@ -209,7 +209,12 @@ func (vc *VC) evalSpec(x SExpr, env *Env) (tv TV) {
 			vars = append(vars, t)
 			e2 = e2.bind(v.Name, TV{T: t, Ty: ty})
 			if ty.Go != nil && ty.Raw == "" {
-				ranges = append(ranges, vc.typeInv(t, ty.Go))
+				// strings: no length guard on a bound variable (it would need a length fact at every
+				// instantiation and offers str.len_ as a trigger); abstract Str values outside the
+				// length range stand for no real string
+				if b, ok := ty.Go.Underlying().(*types.Basic); !(ok && b.Kind() == types.String) {
+					ranges = append(ranges, vc.typeInv(t, ty.Go))
+				}
 			}
 		}
 		vc.inQuant++
